@@ -187,8 +187,10 @@ func (c *capture) EstimatedTags() int { return 0 }
 func (c *capture) DispatchMetricMap(ctx context.Context, mm *gostatsd.MetricMap) {
 	c.maps = append(c.maps, mm)
 }
-func (c *capture) DispatchEvent(ctx context.Context, e *gostatsd.Event) { c.events = append(c.events, e) }
-func (c *capture) WaitForEvents()                                        {}
+func (c *capture) DispatchEvent(ctx context.Context, e *gostatsd.Event) {
+	c.events = append(c.events, e)
+}
+func (c *capture) WaitForEvents() {}
 
 func matchList(ps []string) gostatsd.StringMatchList {
 	l := make(gostatsd.StringMatchList, 0, len(ps))
@@ -395,7 +397,13 @@ func runCase(cs *caseT) string {
 		th.DispatchEvent(ctx, &gostatsd.Event{Title: "t", Text: "x", Source: gostatsd.Source(e.src), Tags: tags})
 	}
 	for _, e := range capV.events {
-		evs = append(evs, hx.S(string(e.Source))+" "+tagsToks(e.Tags))
+		// the order of an event's tags is not fixed by the property: rendered sorted (by their encoded form)
+		enc := make([]string, len(e.Tags))
+		for i, t := range e.Tags {
+			enc[i] = hx.S(t)
+		}
+		sort.Strings(enc)
+		evs = append(evs, strings.TrimSpace(hx.S(string(e.Source))+" "+strconv.Itoa(len(enc))+" "+strings.Join(enc, " ")))
 	}
 	if len(capV.events) != len(cs.events) {
 		evs = append(evs, fmt.Sprintf("EVENTS %d", len(capV.events)))
